@@ -283,3 +283,255 @@ Example C10_dispatch_example :
               r_dest_ok := true; r_conn_ok := true; r_remote_can := true; r_appends := false;
               r_sent := true |} = [RlErrFragmented].
 Proof. split; reflexivity. Qed.
+
+(* ================================================================ A10: the repaired SendSystemError
+   InboundCallResponse.SendSystemError now queues the error frame BEFORE doneSending shuts the
+   exchange down (Model/RespWire.v HSysErr: conn_send_syserr, then done_sending + commit); every
+   theorem above is proved over the repaired model, no statement changed.  New:
+
+   (1) without a connection failure ([stopped] = false: no protocol error, no network error), a
+       dispatched call whose exchange is still registered keeps the connection Active or
+       draining (StartClose): InboundClosed / Closed are reached only after its removal; *)
+From Verif Require Import Proofs.RespWireDrainP.
+
+Theorem C10_drain_state : forall prop ls st id c,
+  RespWire.run prop ls = Some st -> stopped st = false ->
+  get id (calls st) = Some c -> in_ex c = true -> h_pc c <> PAdmit -> h_pc c <> PDead ->
+  cst st = CActive \/ cst st = CStartClose.
+Proof. exact respwire_drain_state. Qed.
+Print Assumptions C10_drain_state.
+
+(* (2) so a handler's SendSystemError on such a call (response not failed, send buffer not full)
+       is enabled, queues exactly the frame (id, Err) and returns nil -- also when the call is
+       the last exchange of a draining connection, where the old order closed the connection
+       first and the frame was refused; *)
+Theorem C10_syserr_step : forall prop ls st id c,
+  RespWire.run prop ls = Some st -> stopped st = false ->
+  get id (calls st) = Some c -> h_pc c = PIdle -> in_ex c = true -> w_err c = false ->
+  exists st' c', RespWire.step st (HSysErr id false) = Some st' /\
+    RespWire.sent st' = RespWire.sent st ++ [(id, Err)] /\
+    get id (calls st') = Some c' /\ g_rets c' = g_rets c ++ [0] /\ g_dones c' = true.
+Proof. exact respwire_syserr_step. Qed.
+Print Assumptions C10_syserr_step.
+
+(* (3) and, inside C10's quantifier, whatever happens afterwards (ls2: the removal closes the
+       connection, the peer cuts it, deadlines, other calls): the frames of the id are those
+       sent before the call followed by EXACTLY ONE error frame -- an accepted word whose only
+       terminal frame is that error frame.  There is no "or the connection closed first"
+       alternative. *)
+Theorem C10_syserr_delivered : forall prop ls1 st1 id c ls2 st,
+  RespWire.run prop ls1 = Some st1 -> stopped st1 = false ->
+  get id (calls st1) = Some c -> h_pc c = PIdle -> in_ex c = true -> w_err c = false ->
+  RespWire.run prop (ls1 ++ HSysErr id false :: ls2) = Some st ->
+  (req_count id (ls1 ++ HSysErr id false :: ls2) <= 1)%nat ->
+  handler_ok id false (ls1 ++ HSysErr id false :: ls2) = true ->
+    proj id (RespWire.sent st) = proj id (RespWire.sent st1) ++ [Err] /\
+    wire_ok (proj id (RespWire.sent st)) = true /\
+    filter terminal (proj id (RespWire.sent st)) = [Err].
+Proof. exact respwire_syserr_delivered. Qed.
+Print Assumptions C10_syserr_delivered.
+
+(* Non-vacuity, and the case the repair is about: call 7 is the only exchange of a connection
+   that is draining after Close; its handler sends a system error: one error frame, result nil,
+   and the removal of the exchange closes the connection. *)
+Example C10_drain_last_example :
+  exists st1 c st,
+    RespWire.run false drain_last_labels = Some st1 /\ cst st1 = CStartClose /\ stopped st1 = false /\
+    get 7 (calls st1) = Some c /\ h_pc c = PIdle /\ in_ex c = true /\ w_err c = false /\
+    inbound_count (calls st1) = 1 /\
+    (req_count 7 (drain_last_labels ++ [HSysErr 7 false]) <= 1)%nat /\
+    handler_ok 7 false (drain_last_labels ++ [HSysErr 7 false]) = true /\
+    RespWire.run false (drain_last_labels ++ [HSysErr 7 false]) = Some st /\
+    proj 7 (RespWire.sent st) = [Err] /\ cst st = CClosed /\
+    (exists c', get 7 (calls st) = Some c' /\ g_rets c' = [0]).
+Proof. exact respwire_drain_last_example. Qed.
+
+(* ================================================================ strengthened statement (U10)
+   "HELPER LAYERS ABOVE THE ARG WRITERS THAT CAN COMPLETE A RESPONSE ON AN ERROR PATH".
+
+   Close() of the last arg writer is not a resource release: it flushes the final fragment
+   without the more-fragments flag and runs doneSending; SendSystemError is guarded by
+   response.err only (C10_two_responders_refuted).  So the grammar rests on every layer between
+   the handler and the arg writers keeping this contract: a failure reported to the caller (who
+   answers it with a system error) has NOT closed the last arg writer.
+
+   (1) The layers of the library -- arguments.go ArgWriteHelper.write (behind Write / WriteJSON)
+       and ArgReadHelper.read, handlers.go ErrorHandlerFunc.Handle, raw/handler.go WriteResponse,
+       json/handler.go handler.Handle (its writing tail), thrift/server.go Server.handle (after the
+       arg3 writer was obtained) -- are REGENERATED from the Go source on every run as traces of the
+       calls they make on the writer / the response (Gen/GenArgHelper.v; go2v Target.CallTrace
+       threads the trace statement by statement, so a call moved to another path changes the trace
+       even when the returned value does not) and proved equal to the hand models of
+       Model/ArgHelper.v for every combination of the callees' results. *)
+From Verif Require Import Model.ArgHelper Gen.GenArgHelper Proofs.ArgHelperP.
+
+Theorem C10_arg_helper_tie :
+  (forall werr ferr cerr tr, argWriteHelperWrite werr ferr cerr tr = helper_write werr ferr cerr tr) /\
+  (forall rerr ferr eerr cerr tr, argReadHelperRead rerr ferr eerr cerr tr = helper_read rerr ferr eerr cerr tr) /\
+  (forall herr tr, errorHandlerFuncHandle herr tr = efh_handle herr tr) /\
+  (forall has_sys is_err serr aerr e2 e3 tr,
+     rawWriteResponse has_sys is_err serr aerr e2 e3 tr = raw_write_response has_sys is_err serr aerr e2 e3 tr) /\
+  (forall e2 e3 tr, jsonHandleWriteTail e2 e3 tr = json_write_tail e2 e3 tr) /\
+  (forall serr cerr tr, thriftHandleWriteTail serr cerr tr = thrift_write_tail serr cerr tr).
+Proof.
+  exact (conj arg_write_helper_tie (conj arg_read_helper_tie (conj error_handler_func_tie
+        (conj raw_write_response_tie (conj json_write_tail_tie thrift_write_tail_tie))))).
+Qed.
+Print Assumptions C10_arg_helper_tie.
+
+(*     and, for what the six traces do not see (closures such as the f() of WriteJSON, the callers
+       raw.Wrap / json.Register / thrift Server.Handle, the http response writer, the parts of a
+       function outside a translated region): the number of Close / SendSystemError / Flush calls
+       in each of the 22 functions of these layers is regenerated and equal to the expected table. *)
+From Verif Require Import Gen.GenHelperCensus.
+Theorem C10_helper_census : helper_census = helper_census_expected.
+Proof. exact helper_census_ok. Qed.
+Print Assumptions C10_helper_census.
+
+(* (2) The contract, stated on the generated functions (markers: 1 = f(), 2 = writer.Close()):
+       ArgWriteHelper.write closes its writer exactly when neither the sticky error nor f() failed,
+       at most once, after f(); a closed writer means the result is Close's own, an open writer
+       means an error is reported; and it only appends to whatever happened before. *)
+Theorem C10_arg_write_helper_contract : forall werr ferr cerr,
+  let (t, e) := argWriteHelperWrite werr ferr cerr [] in
+  has 2 t = negb (werr || ferr) /\ (occ 2 t <= 1)%nat /\
+  (has 2 t = true -> t = [1; 2] /\ e = cerr) /\
+  (has 2 t = false -> e = true) /\
+  has 1 t = negb werr.
+Proof. exact arg_write_helper_contract. Qed.
+Print Assumptions C10_arg_write_helper_contract.
+
+Theorem C10_arg_write_helper_appends : forall werr ferr cerr tr,
+  fst (argWriteHelperWrite werr ferr cerr tr) = tr ++ fst (argWriteHelperWrite werr ferr cerr []) /\
+  snd (argWriteHelperWrite werr ferr cerr tr) = snd (argWriteHelperWrite werr ferr cerr []).
+Proof. exact arg_write_helper_appends. Qed.
+
+(*     ArgReadHelper.read (1 = f(), 2 = EnsureEmpty, 3 = reader.Close()): each step only after the
+       previous one succeeded.  ErrorHandlerFunc (1 = the function, 2 = SendSystemError): one
+       system error exactly when the function returned an error.  thrift Server.handle
+       (1 = resp.Write, 2 = SendSystemError, 3 = writer.Close()): never both a system error and a
+       closed writer.  raw.WriteResponse (9 = SendSystemError, 8 = SetApplicationError, 2 / 3 =
+       helper writes): a system error excludes every arg write, arg3 only after arg2 succeeded. *)
+Theorem C10_helper_layers_contract :
+  (forall rerr ferr eerr cerr,
+     let (t, e) := argReadHelperRead rerr ferr eerr cerr [] in
+     has 3 t = negb (rerr || ferr || eerr) /\ (has 3 t = true -> t = [1; 2; 3] /\ e = cerr) /\
+     (has 3 t = false -> e = true)) /\
+  (forall herr, occ 1 (errorHandlerFuncHandle herr []) = 1%nat /\
+                occ 2 (errorHandlerFuncHandle herr []) = (if herr then 1 else 0)%nat) /\
+  (forall serr cerr,
+     let (t, e) := thriftHandleWriteTail serr cerr [] in
+     has 2 t = serr /\ has 3 t = negb serr /\ (occ 2 t <= 1)%nat /\ (occ 3 t <= 1)%nat /\
+     (serr = true -> e = true)) /\
+  (forall has_sys is_err serr aerr e2 e3,
+     let (t, e) := rawWriteResponse has_sys is_err serr aerr e2 e3 [] in
+     (has 9 t = true -> has 2 t = false /\ has 3 t = false /\ has 8 t = false) /\
+     has 9 t = has_sys /\
+     (has 3 t = true -> has 2 t = true /\ e2 = false /\ e = e3) /\
+     (has_sys = false -> has 3 t = false -> e = true)) /\
+  (forall e2 e3,
+     let (t, e) := jsonHandleWriteTail e2 e3 [] in
+     has 3 t = negb e2 /\ (has 3 t = true -> e = e3) /\ (has 3 t = false -> e = true)).
+Proof.
+  exact (conj arg_read_helper_contract (conj error_handler_func_contract (conj thrift_write_tail_contract
+        (conj raw_write_response_contract json_write_tail_contract)))).
+Qed.
+Print Assumptions C10_helper_layers_contract.
+
+(* (3) The server model has the helper as a handler action: [HHelperWrite id ok fullfrag] = the
+       tail of ArgWriteHelper.write after f() returned.  Its decision is the generated function's;
+       with a successful f() it IS the Close step; with a failed f() it changes nothing but the
+       recorded result.  Every theorem above (grammar, any-handler, dispatch, drain) is proved over
+       the model with this action, statements unchanged. *)
+Theorem C10_helper_step :
+  (forall ok, helper_closes ok = existsb (Z.eqb 2) (fst (argWriteHelperWrite false (negb ok) false []))) /\
+  (forall st id ff, RespWire.step st (HHelperWrite id true ff) = RespWire.step st (HClose id ff)) /\
+  (forall prop ls st id c ff,
+     RespWire.run prop ls = Some st -> get id (calls st) = Some c -> h_pc c = PIdle ->
+     exists st', RespWire.run prop (ls ++ [HHelperWrite id false ff]) = Some st' /\
+       RespWire.sent st' = RespWire.sent st /\ cst st' = cst st /\ stopped st' = stopped st /\
+       get id (calls st') = Some (ret c 1) /\
+       g_rets (ret c 1) = g_rets c ++ [1] /\ h_pc (ret c 1) = h_pc c /\ w_err (ret c 1) = w_err c /\
+       w_state (ret c 1) = w_state c /\ f_state (ret c 1) = f_state c /\ f_err (ret c 1) = f_err c /\
+       f_cur (ret c 1) = f_cur c /\ g_dones (ret c 1) = g_dones c /\ in_ex (ret c 1) = in_ex c).
+Proof. exact (conj helper_closes_gen (conj helper_ok_is_close helper_fail_untouched)). Qed.
+Print Assumptions C10_helper_step.
+
+(*     "A handler error is reported as an error frame, not as an empty success": the helper write
+       of a dispatched call (exchange registered, response not failed, no connection failure)
+       fails above the transport -- a value that cannot be encoded --, the handler answers with
+       one system error: for EVERY continuation of the run the caller gets the frames sent before
+       followed by exactly one error frame. *)
+Theorem C10_helper_fail_syserr_delivered : forall prop ls1 st1 id c ff ls2 st,
+  RespWire.run prop ls1 = Some st1 -> stopped st1 = false ->
+  get id (calls st1) = Some c -> h_pc c = PIdle -> in_ex c = true -> w_err c = false ->
+  RespWire.run prop (ls1 ++ HHelperWrite id false ff :: HSysErr id false :: ls2) = Some st ->
+  (req_count id (ls1 ++ HHelperWrite id false ff :: HSysErr id false :: ls2) <= 1)%nat ->
+  handler_ok id false (ls1 ++ HHelperWrite id false ff :: HSysErr id false :: ls2) = true ->
+    proj id (RespWire.sent st) = proj id (RespWire.sent st1) ++ [Err] /\
+    wire_ok (proj id (RespWire.sent st)) = true /\
+    filter terminal (proj id (RespWire.sent st)) = [Err].
+Proof. exact helper_fail_syserr_delivered. Qed.
+Print Assumptions C10_helper_fail_syserr_delivered.
+
+(*     The contract is necessary (and the example is the non-vacuity witness of the theorem
+       above): call 7, arg2 written with the helper, the helper write of arg3 fails in f().  As
+       the helper is, the system error is the only frame; the labels of a helper that closes its
+       writer on that path too (Close, its flush, doneSending) complete an EMPTY response and the
+       same system error follows: [Res[last]; Err]. *)
+Theorem C10_helper_close_on_error_refuted :
+  (handler_ok 7 false (helper_prelude ++ helper_as_is) = true /\
+   exists st, RespWire.run false (helper_prelude ++ helper_as_is) = Some st /\ proj 7 (RespWire.sent st) = [Err] /\
+              wire_ok (proj 7 (RespWire.sent st)) = true /\
+              exists c, get 7 (calls st) = Some c /\ g_rets c = [0; 0; 0; 0; 0; 1; 0]) /\
+  (handler_ok 7 false (helper_prelude ++ helper_closing_on_error) = false /\
+   exists st, RespWire.run false (helper_prelude ++ helper_closing_on_error) = Some st /\
+              proj 7 (RespWire.sent st) = [Res false; Err] /\ wire_prefix_ok (proj 7 (RespWire.sent st)) = false /\
+              In 7 (misused st)).
+Proof. exact helper_close_on_error_refuted. Qed.
+Print Assumptions C10_helper_close_on_error_refuted.
+
+(* (4) THE QUANTIFIER WIDENED TO HANDLERS WRITTEN WITH THE HELPERS.  [handler_ok] forbids every
+       SendSystemError after doneSending.  An ErrorHandlerFunc that answers through the helpers
+       leaves that class exactly when the helper's Close of arg3 FAILS at the transport (deadline,
+       cancel, connection failure during the final flush): Close has run doneSending, the helper
+       returns Close's error, the library calls SendSystemError after HDone.  [helper_ok id]
+       (Proofs/RespWireHelperP.v): at most one SendSystemError, and after HDone only when the final
+       flush of that Close did not enqueue its fragment (the handler action of the call right before
+       HDone is not [HFlushSel id true]).  It contains [handler_ok], and for every run and every
+       call that keeps it the full grammar conclusion holds: every failing flush marks the response
+       as failed and response.err is never cleared, so that SendSystemError is refused. *)
+From Verif Require Import Proofs.RespWireHelperP.
+
+Theorem C10_helper_ok_contains_handler_ok : forall id ls,
+  handler_ok id false ls = true -> helper_ok id TOpen false ls = true.
+Proof. exact (fun id ls => handler_ok_helper_ok id ls false). Qed.
+
+Theorem C10_server_grammar_helper : forall prop ls st,
+  RespWire.run prop ls = Some st ->
+  forall id, (req_count id ls <= 1)%nat -> helper_ok id TOpen false ls = true ->
+    wire_prefix_ok (proj id (RespWire.sent st)) = true /\
+    (forall l1 k l2, proj id (RespWire.sent st) = l1 ++ k :: l2 -> terminal k = true -> l2 = []) /\
+    (length (filter terminal (proj id (RespWire.sent st))) <= 1)%nat /\
+    (req_count id ls = O -> proj id (RespWire.sent st) = []) /\
+    (get id (calls st) = None -> proj id (RespWire.sent st) = [] \/ proj id (RespWire.sent st) = [Err]).
+Proof. exact respwire_grammar_helper. Qed.
+Print Assumptions C10_server_grammar_helper.
+
+Theorem C10_helper_ok_not_misused : forall prop ls st id,
+  RespWire.run prop ls = Some st -> helper_ok id TOpen false ls = true -> ~ In id (misused st).
+Proof. exact helper_ok_not_misused. Qed.
+Print Assumptions C10_helper_ok_not_misused.
+
+(* Non-vacuity and tightness: the deadline passes before / during the helper's Close of arg3, the
+   handler sends its system error after the failed Close (outside handler_ok, inside helper_ok;
+   nothing is sent); a system error after a Close that did enqueue the final fragment is outside. *)
+Example C10_helper_ok_examples :
+  (handler_ok 7 false close_fails_early = false /\ helper_ok 7 TOpen false close_fails_early = true /\
+   exists st, RespWire.run false close_fails_early = Some st /\ proj 7 (RespWire.sent st) = [] /\ misused st = [] /\
+              exists c, get 7 (calls st) = Some c /\ g_rets c = [0; 0; 0; 0; 0; 1; 1]) /\
+  (handler_ok 7 false close_fails_at_select = false /\ helper_ok 7 TOpen false close_fails_at_select = true /\
+   exists st, RespWire.run false close_fails_at_select = Some st /\ proj 7 (RespWire.sent st) = [] /\ misused st = [] /\
+              exists c, get 7 (calls st) = Some c /\ g_rets c = [0; 0; 0; 0; 0; 1; 1]) /\
+  helper_ok 7 TOpen false misuse_labels = false.
+Proof. exact helper_ok_examples. Qed.
